@@ -555,6 +555,9 @@ const (
 	ScGatedShutdown = "gated-shutdown" // Shutdown requested while exports are held and requests are queued
 	ScQueueFull     = "queue-full"     // small queue + held exports: later enqueues are refused
 	ScRetryWait     = "retry-wait"     // Shutdown while requests sit in a (one hour) retry wait
+	// block_on_overflow with a tiny queue and held exports: producers park inside the queue's wait for space
+	// (or, with wait_for_result, wait for the result) and their contexts are cancelled / time out there
+	ScBlocked = "blocked-ctx-end"
 )
 
 type ExpCase struct {
@@ -566,7 +569,16 @@ type ExpCase struct {
 	Reqs      int              `json:"reqs_per_producer"`
 	Sizes     []int            `json:"sizes"`
 	Directed  string           `json:"directed,omitempty"`
+	// CtxPlan (ScBlocked), per producer: live | cancel-when-parked | deadline | cancelled-at-start
+	CtxPlan []string `json:"ctx_plan,omitempty"`
 }
+
+const (
+	ctxLive      = "live"               // never ends; the producer gets its space once exports are released
+	ctxCancel    = "cancel-when-parked" // cancelled by the driver while the producer is parked (space or result wait)
+	ctxDeadline  = "deadline"           // 1-3 ms deadline: expires while the producer is parked
+	ctxCancelled = "cancelled-at-start" // starts, already cancelled, once the queue is full
+)
 
 func (ec ExpCase) scriptName() string {
 	if ec.Script == "transient" {
@@ -604,6 +616,12 @@ func genExp(rng *rand.Rand) ExpCase {
 	if cfg.WaitsForResult() {
 		scs = []string{ScDrain, ScDrain, ScQueueFull} // ConsumeX returns only after the export: nothing can be held
 	}
+	if cfg.Batch == expkit.BatchNone || cfg.Batch == expkit.BatchItems {
+		scs = append(scs, ScBlocked, ScBlocked)
+		if cfg.WaitsForResult() {
+			scs = append(scs, ScBlocked)
+		}
+	}
 	ec.Scenario = scs[rng.Intn(len(scs))]
 	ec.Script = []string{"ok", "transient", "permanent", "mixed", "mixed"}[rng.Intn(5)]
 	ec.K = []int{1, 2, 3, 1000}[rng.Intn(4)]
@@ -630,7 +648,20 @@ func genExp(rng *rand.Rand) ExpCase {
 		cfg.Sizer = []string{"requests", "items", "bytes"}[rng.Intn(3)]
 		cfg.QueueSize = map[string]int64{"requests": 1000, "items": 100000, "bytes": 10_000_000}[cfg.Sizer]
 	}
-	if ec.Scenario == ScQueueFull {
+	if ec.Scenario == ScBlocked {
+		cfg.BlockOnOverflow = true
+		ec.Producers = 2 + rng.Intn(3)
+		ec.Reqs = 1 + rng.Intn(4)
+		must := []string{ctxCancel, ctxDeadline, ctxCancelled}[rng.Intn(3)]
+		for p := 0; p < ec.Producers; p++ {
+			ec.CtxPlan = append(ec.CtxPlan, []string{ctxLive, ctxLive, ctxCancel, ctxCancel, ctxDeadline, ctxCancelled}[rng.Intn(6)])
+		}
+		ec.CtxPlan[rng.Intn(ec.Producers)] = must
+		if ec.CtxPlan[0] == ctxCancelled {
+			ec.CtxPlan[0] = ctxLive // somebody has to fill the queue first
+		}
+	}
+	if ec.Scenario == ScQueueFull || ec.Scenario == ScBlocked {
 		// room for a few requests only (some single requests may not fit at all)
 		cfg.QueueSize = map[string]int64{"requests": int64(1 + rng.Intn(3)), "items": int64(3 + rng.Intn(8)), "bytes": int64(150 + rng.Intn(500))}[cfg.Sizer]
 	}
@@ -658,8 +689,8 @@ func genExp(rng *rand.Rand) ExpCase {
 			}
 		}
 		cfg.FlushMS = []int64{1, 2, 5, 3_600_000}[rng.Intn(4)]
-		if cfg.WaitsForResult() || ec.Scenario == ScRetryWait {
-			cfg.FlushMS = int64(1 + rng.Intn(3))
+		if cfg.WaitsForResult() || ec.Scenario == ScRetryWait || ec.Scenario == ScBlocked {
+			cfg.FlushMS = int64(1 + rng.Intn(3)) // ScBlocked: a pending partial batch would keep the space occupied for ever
 		}
 	}
 	if cfg.Retry {
@@ -670,8 +701,8 @@ func genExp(rng *rand.Rand) ExpCase {
 		} else if rng.Intn(2) == 0 {
 			cfg.RetryElapsedMS = int64(10 + rng.Intn(20))
 		}
-		if cfg.WaitsForResult() && cfg.RetryElapsedMS == 0 && ec.Script == "transient" && ec.K >= 1000 {
-			cfg.RetryElapsedMS = 15 // producers wait for the result: let the retries give up
+		if (cfg.WaitsForResult() || ec.Scenario == ScBlocked) && cfg.RetryElapsedMS == 0 && ec.Script == "transient" && ec.K >= 1000 {
+			cfg.RetryElapsedMS = 15 // producers wait for the result / for space: let the retries give up
 		}
 	}
 	return ec
@@ -697,7 +728,7 @@ func runExp(c *driver.Ctx, ec ExpCase) (reproduced bool) {
 	sigKV := []string{"signal", cfg.Signal, "queue", cfg.QueueKind(), "batch", cfg.Batch, "retry", fmt.Sprint(cfg.Retry), "script", ec.scriptName(), "scenario", ec.Scenario}
 	before := expkit.HelperGoroutines()
 	log := expkit.NewLog()
-	gated := (ec.Scenario == ScGatedOpen || ec.Scenario == ScGatedShutdown || ec.Scenario == ScQueueFull) && !cfg.WaitsForResult()
+	gated := ((ec.Scenario == ScGatedOpen || ec.Scenario == ScGatedShutdown || ec.Scenario == ScQueueFull) && !cfg.WaitsForResult()) || ec.Scenario == ScBlocked
 	var gate *expkit.Gate
 	if gated {
 		gate = expkit.NewGate(false)
@@ -751,7 +782,12 @@ func runExp(c *driver.Ctx, ec ExpCase) (reproduced bool) {
 	}
 
 	var mu sync.Mutex
-	var given, refusedItems, exportErrItems, acceptedReqs, acceptedSize int64 // refusedItems: queue full / too large; exportErrItems: ConsumeX returned an export result (wait_for_result)
+	// refusedItems: never entered the queue (full / too large / context ended in the wait for space);
+	// exportErrItems: ConsumeX returned an export result (wait_for_result); abandonedItems: the context ended while
+	// the producer waited for the result of a request the queue had accepted
+	var given, refusedItems, exportErrItems, abandonedItems, ctxRefusedItems, acceptedReqs, acceptedSize int64
+	pstate := make([]string, ec.Producers) // ScBlocked: "" running | space | result | done
+	lastWait := make([]string, ec.Producers)
 	type gaugeSample struct {
 		Where    string `json:"where"`
 		Size     int64  `json:"size"`
@@ -795,6 +831,170 @@ func runExp(c *driver.Ctx, ec ExpCase) (reproduced bool) {
 		return int64(len(seen)) >= given-refusedItems
 	}
 
+	record := func(p, n int, sz int64, err error) {
+		mu.Lock()
+		defer mu.Unlock()
+		given += int64(n)
+		switch {
+		case err == nil:
+			acceptedReqs++
+			acceptedSize += sz
+		case errors.Is(err, exporterhelper.ErrQueueIsFull) || strings.Contains(err.Error(), "size too large"):
+			refusedItems += int64(n)
+		case ec.Scenario == ScBlocked && (errors.Is(err, context.Canceled) || errors.Is(err, context.DeadlineExceeded)):
+			switch lastWait[p] {
+			case expkit.WaitResult: // accepted by the queue, the producer stopped waiting for the result
+				abandonedItems += int64(n)
+				acceptedReqs++
+				acceptedSize += sz
+			default:
+				if lastWait[p] == "" {
+					c.Note("context error from ConsumeX although the producer never reached a wait (%s): %v", cfg.Class(), err)
+				}
+				refusedItems += int64(n)
+				ctxRefusedItems += int64(n)
+			}
+		case cfg.WaitsForResult():
+			exportErrItems += int64(n)
+		default:
+			c.Note("unexpected ConsumeX error without wait_for_result (%s): %v", cfg.Class(), err)
+			refusedItems += int64(n)
+		}
+	}
+
+	// ScBlocked: producers with instrumented contexts
+	blockedPhase := func() {
+		ctxs := make([]context.Context, ec.Producers)
+		cancels := make([]context.CancelFunc, ec.Producers)
+		for p := range ctxs {
+			switch ec.CtxPlan[p] {
+			case ctxDeadline:
+				ctxs[p], cancels[p] = context.WithTimeout(context.Background(), time.Duration(1+h32(tag, p)%3)*time.Millisecond)
+			default:
+				ctxs[p], cancels[p] = context.WithCancel(context.Background())
+			}
+			if ec.CtxPlan[p] == ctxCancelled {
+				cancels[p]()
+			}
+		}
+		defer func() {
+			for _, cf := range cancels {
+				cf()
+			}
+		}()
+		var wg sync.WaitGroup
+		start := func(p int) {
+			wg.Add(1)
+			go func() {
+				defer wg.Done()
+				hc := expkit.HookCtx{Context: ctxs[p], Owner: expkit.CurGID()}
+				hc.OnBlock = func(where string) {
+					mu.Lock()
+					pstate[p], lastWait[p] = where, where
+					mu.Unlock()
+					log.Add(expkit.Event{Kind: "parked-" + where, Actor: p})
+				}
+				for r := 0; r < ec.Reqs; r++ {
+					n := ec.Sizes[(p*ec.Reqs+r)%len(ec.Sizes)]
+					pl := expkit.Make(cfg.Sig, mkIDs(fmt.Sprintf("%s.p%d.r%d", tag, p, r), n))
+					sz := sizeOf(cfg, pl)
+					mu.Lock()
+					pstate[p], lastWait[p] = "", ""
+					mu.Unlock()
+					log.Add(expkit.Event{Kind: expkit.EvEnqCall, Actor: p, Req: r, N: n})
+					err := exp.Consume(hc, pl)
+					record(p, n, sz, err)
+					mu.Lock()
+					pstate[p] = ""
+					if r == ec.Reqs-1 {
+						pstate[p] = "done"
+					}
+					mu.Unlock()
+					oc := ""
+					switch {
+					case err != nil && (errors.Is(err, context.Canceled) || errors.Is(err, context.DeadlineExceeded)):
+						oc = "ctx-error"
+					case err != nil:
+						oc = "error"
+					}
+					log.Add(expkit.Event{Kind: expkit.EvEnqRet, Actor: p, Req: r, Outcome: oc, N: n})
+				}
+			}()
+		}
+		settled := func(only func(p int) bool, doneOnly bool) func() bool {
+			return func() bool {
+				mu.Lock()
+				defer mu.Unlock()
+				for p, st := range pstate {
+					if !only(p) {
+						continue
+					}
+					if st == "done" || (!doneOnly && (st == expkit.WaitSpace || st == expkit.WaitResult)) {
+						continue
+					}
+					return false
+				}
+				return true
+			}
+		}
+		early := func(p int) bool { return ec.CtxPlan[p] != ctxCancelled }
+		all := func(int) bool { return true }
+		steer := func(ok bool, which string) {
+			if !ok {
+				c.Observe("steer_cap_expired:blocked/"+which, 1)
+				mu.Lock()
+				c.Note("blocked steering %s expired: %s plan=%v states=%v", which, cfg.Class(), ec.CtxPlan, pstate)
+				mu.Unlock()
+			}
+		}
+		heldSample := func(where string) {
+			// no export has ended (all are held at the gate) and nobody is between two states: the reported
+			// size is the sum of the sizes of the requests the queue took
+			if !cfg.Persistent && !cfg.WaitsForResult() {
+				mu.Lock()
+				sz := acceptedSize
+				mu.Unlock()
+				sample(where, sz, sz)
+			}
+		}
+		for p := 0; p < ec.Producers; p++ {
+			if early(p) {
+				start(p)
+			}
+		}
+		// logical point 1: every producer is finished or parked (in the wait for space / for its result)
+		steer(log.WaitFor(settled(early, false), 4*time.Second), "point-1")
+		mu.Lock()
+		parkedSpace, parkedResult := 0, 0
+		for _, st := range pstate {
+			switch st {
+			case expkit.WaitSpace:
+				parkedSpace++
+			case expkit.WaitResult:
+				parkedResult++
+			}
+		}
+		mu.Unlock()
+		c.Observe("blocked_producers_parked_for_space", int64(parkedSpace))
+		c.Observe("blocked_producers_parked_for_result", int64(parkedResult))
+		heldSample("blocked/held-1")
+		// end the contexts of the parked producers; late producers arrive with a dead context at the full queue
+		for p := 0; p < ec.Producers; p++ {
+			switch ec.CtxPlan[p] {
+			case ctxCancel:
+				cancels[p]()
+			case ctxCancelled:
+				start(p)
+			}
+		}
+		// logical point 2: every producer whose context ended has returned from all its calls
+		steer(log.WaitFor(settled(func(p int) bool { return ec.CtxPlan[p] != ctxLive }, true), 4*time.Second), "point-2a")
+		steer(log.WaitFor(settled(all, false), 4*time.Second), "point-2b")
+		heldSample("blocked/held-2")
+		gate.Open()
+		wg.Wait()
+	}
+
 	body := func() {
 		if err := exp.Start(context.Background(), host); err != nil {
 			c.Note("Start failed for %s: %v", cfg.Class(), err)
@@ -802,7 +1002,10 @@ func runExp(c *driver.Ctx, ec ExpCase) (reproduced bool) {
 		}
 		started = true
 		var wg sync.WaitGroup
-		for p := 0; p < ec.Producers; p++ {
+		if ec.Scenario == ScBlocked {
+			blockedPhase()
+		}
+		for p := 0; p < ec.Producers && ec.Scenario != ScBlocked; p++ {
 			wg.Add(1)
 			go func(p int) {
 				defer wg.Done()
@@ -812,22 +1015,7 @@ func runExp(c *driver.Ctx, ec ExpCase) (reproduced bool) {
 					sz := sizeOf(cfg, pl)
 					log.Add(expkit.Event{Kind: expkit.EvEnqCall, Actor: p, Req: r, N: n})
 					err := exp.Consume(context.Background(), pl)
-					mu.Lock()
-					given += int64(n)
-					if err != nil && (errors.Is(err, exporterhelper.ErrQueueIsFull) || strings.Contains(err.Error(), "size too large")) {
-						refusedItems += int64(n)
-					} else if err != nil {
-						exportErrItems += int64(n)
-						if !cfg.WaitsForResult() {
-							c.Note("unexpected ConsumeX error without wait_for_result (%s): %v", cfg.Class(), err)
-							refusedItems += int64(n)
-							exportErrItems -= int64(n)
-						}
-					} else {
-						acceptedReqs++
-						acceptedSize += sz
-					}
-					mu.Unlock()
+					record(p, n, sz, err)
 					oc := ""
 					if err != nil {
 						oc = "error"
@@ -839,7 +1027,7 @@ func runExp(c *driver.Ctx, ec ExpCase) (reproduced bool) {
 		wg.Wait() // every ConsumeX has returned before Shutdown is requested
 		capWant := cfg.QueueSize
 		_ = capWant
-		if gated && !cfg.WaitsForResult() {
+		if gated && !cfg.WaitsForResult() && ec.Scenario != ScBlocked {
 			// quiescent sample 1: producers returned, no export has ended (all are held at the gate)
 			if !cfg.Persistent {
 				sample("held/memory", acceptedSize, acceptedSize)
@@ -849,7 +1037,8 @@ func runExp(c *driver.Ctx, ec ExpCase) (reproduced bool) {
 					// requests still waiting in the queue are counted; those handed to a consumer may or may not be
 					sample("held/persistent", acceptedReqs-int64(want), acceptedReqs)
 				} else {
-					c.Observe("steer_cap_expired", 1)
+					c.Observe("steer_cap_expired:held-persistent", 1)
+					c.Note("held/persistent steering expired: %s %s want=%d accepted=%d gate=%d", cfg.Class(), ec.Scenario, want, acceptedReqs, log.Count(expkit.EvGate))
 				}
 			}
 		}
@@ -857,7 +1046,8 @@ func runExp(c *driver.Ctx, ec ExpCase) (reproduced bool) {
 		case ScRetryWait:
 			want := min(cfg.EffectiveConsumers(), int(acceptedReqs), 1+ec.Reqs%3)
 			if want > 0 && !log.WaitCount(expkit.EvRetryLog, want, nil, 4*time.Second) {
-				c.Observe("steer_cap_expired", 1)
+				c.Observe("steer_cap_expired:retry-wait", 1)
+				c.Note("retry-wait steering expired: %s script=%s k=%d want=%d accepted=%d retrylogs=%d attempts=%d inflight=%d procs=%d gate=%v elapsed=%d init=%d sizer=%s qs=%d frames=%v", cfg.Class(), ec.Script, ec.K, want, acceptedReqs, log.Count(expkit.EvRetryLog), len(be.Attempts()), be.Inflight(), runtime.GOMAXPROCS(0), gate != nil, cfg.RetryElapsedMS, cfg.RetryInitMS, cfg.Sizer, cfg.QueueSize, func() []string { var o []string; for _, g := range expkit.Dump() { if g.Helper() { o = append(o, g.TopRepo+" ["+g.State+"]") } }; return o }())
 			}
 		case ScGatedShutdown:
 			go func() {
@@ -969,13 +1159,17 @@ func runExp(c *driver.Ctx, ec ExpCase) (reproduced bool) {
 	lhs, rhs := sent+failed+enq, given-stored
 	wit := func() map[string]any {
 		return map[string]any{"case": ec, "ledger": map[string]int64{"given": given, "refused_at_enqueue": refusedItems, "still_stored_by_drain": stored, "still_stored_in_image": storedImage, "items_of_shutdown_interrupted_requests": interrupted,
-			"consumex_returned_export_error": exportErrItems, "booked_sent_and_still_stored": sentAndStored, "booked_failed_and_still_stored": failedAndStored},
+			"consumex_returned_export_error": exportErrItems, "context_ended_in_wait_for_space": ctxRefusedItems, "context_ended_in_wait_for_result": abandonedItems, "booked_sent_and_still_stored": sentAndStored, "booked_failed_and_still_stored": failedAndStored},
 			"reader": map[string]int64{"sent": sent, "send_failed": failed, "enqueue_failed": enq}, "attempts": len(atts), "counters": snap.NonZero("otelcol_exporter_")}
 	}
 	c.Observe("exporter_identities_checked", 1)
 	if lhs != rhs {
 		diff := "other"
 		switch {
+		case cfg.WaitsForResult() && abandonedItems > 0 && lhs-rhs == abandonedItems && enq-refusedItems == abandonedItems:
+			diff = "request-abandoned-in-result-wait-also-counted-enqueue-failed"
+		case ctxRefusedItems > 0 && rhs-lhs == ctxRefusedItems && refusedItems-enq == ctxRefusedItems:
+			diff = "context-ended-in-wait-for-space-not-counted-enqueue-failed"
 		case cfg.WaitsForResult() && exportErrItems > 0 && lhs-rhs == exportErrItems && enq-refusedItems == exportErrItems:
 			diff = "wait-for-result-export-errors-also-counted-enqueue-failed"
 		case cfg.Persistent && sentAndStored == 0 && failedAndStored > 0 && lhs-rhs == failedAndStored:
@@ -997,10 +1191,12 @@ func runExp(c *driver.Ctx, ec ExpCase) (reproduced bool) {
 		c.Violation("exporter-identity", fmt.Sprintf("after Shutdown: sent %d + send_failed %d + enqueue_failed %d = %d, but given %d - still stored %d = %d (%s, %s/%s; attempted and still stored: %d; open retry chains at shutdown: %d items; ConsumeX returned an export error for %d items)",
 			sent, failed, enq, lhs, given, stored, rhs, cfg.Class(), ec.scriptName(), ec.Scenario, attemptedAndStored, interrupted, exportErrItems), wit(), append(sigKV, "diff", diff)...)
 	}
-	if !cfg.WaitsForResult() {
+	{
 		c.Observe("enqueue_failed_compared", 1)
-		if enq != refusedItems {
-			c.Violation("exporter-enqueue-failed", fmt.Sprintf("enqueue_failed_%s = %d, but ConsumeX returned an error for %d item(s) (%s, %s)", noun, enq, refusedItems, cfg.Class(), ec.Scenario), wit(), sigKV...)
+		if enq != refusedItems && !(cfg.WaitsForResult() && abandonedItems > 0 && enq-refusedItems == abandonedItems) {
+			// (the excess that equals the items abandoned in a result wait is reported once, by the identity oracle)
+			c.Violation("exporter-enqueue-failed", fmt.Sprintf("enqueue_failed_%s = %d, but %d item(s) never entered the queue (refused as full / too large: %d, context ended in the wait for space: %d; export errors returned by ConsumeX: %d, context ended while waiting for the result of an accepted request: %d) (%s, %s)",
+				noun, enq, refusedItems, refusedItems-ctxRefusedItems, ctxRefusedItems, exportErrItems, abandonedItems, cfg.Class(), ec.Scenario), wit(), sigKV...)
 		}
 	}
 	for _, f := range expkit.Signals {
@@ -1043,6 +1239,30 @@ func runExp(c *driver.Ctx, ec ExpCase) (reproduced bool) {
 	}
 	if interrupted > 0 {
 		pat = append(pat, "interrupted")
+	}
+	if ctxRefusedItems > 0 {
+		pat = append(pat, "ctx-ended-in-space-wait")
+	}
+	if abandonedItems > 0 {
+		pat = append(pat, "ctx-ended-in-result-wait")
+	}
+	if ec.Scenario == ScBlocked {
+		plans := map[string]bool{}
+		for _, pl := range ec.CtxPlan {
+			plans[pl] = true
+		}
+		for pl := range plans {
+			if pl != ctxLive {
+				pat = append(pat, pl)
+			}
+		}
+		c.Observe("exporter_histories_blocked_scenario", 1)
+		if ctxRefusedItems > 0 {
+			c.Observe("exporter_histories_ctx_ended_in_wait_for_space", 1)
+		}
+		if abandonedItems > 0 {
+			c.Observe("exporter_histories_ctx_ended_in_wait_for_result", 1)
+		}
 	}
 	partial := false
 	for _, a := range atts {
@@ -1093,7 +1313,7 @@ func run(c *driver.Ctx) {
 				ec.Cfg = expkit.ExpConfig{Sig: sig, Signal: sig.String(), Persistent: true, Batch: expkit.BatchNone, Sizer: "requests", QueueSize: 1000, Consumers: 1,
 					Retry: true, RetryInitMS: 3_600_000, RetryMaxMS: 3_600_000, NoTimeout: true}
 				if !runExp(c, ec) {
-					c.Note("directed reproducer of C19-b (%s) did not reproduce", sig)
+					c.Observe("directed_c19b_not_reproduced", 1)
 				}
 				c.Observe("directed_cases", 1)
 			}
